@@ -78,7 +78,9 @@ NoGroup == [ mls      |-> "none",    \* "none" | "ok" | "evicted"
              props    |-> {},        \* queued proposals (event names)
              secrets  |-> <<>>,      \* stored exporter secrets: sequence of [epoch, chain] (a map by epoch)
              past     |-> <<>>,      \* chains of past epochs whose message secrets MLS still holds
-             consumed |-> {},        \* application events whose ratchet generation has been used
+             consumed |-> {},        \* ratchet generations used: records [a (sender), ch (chain), t ("hs"|"app"), n]
+             sentH    |-> 0,         \* own handshake-ratchet generation (commits, proposals) in the current epoch
+             sentA    |-> 0,         \* own application-ratchet generation in the current epoch
              rec      |-> NoRecord,  \* the denormalised group record
              stored   |-> {} ]       \* snapshots in storage: set of [epoch, commit, snap]
 
@@ -90,9 +92,14 @@ PutSecret(gs, n, ch) == IF SecretAt(gs, n)[1] = "absent"
 
 \* what a snapshot copies (everything group-scoped except the snapshots themselves)
 SnapOf(gs) == [mls |-> gs.mls, chain |-> gs.chain, pend |-> gs.pend, props |-> gs.props,
-               secrets |-> gs.secrets, past |-> gs.past, consumed |-> gs.consumed, rec |-> gs.rec]
+               secrets |-> gs.secrets, past |-> gs.past, consumed |-> gs.consumed, rec |-> gs.rec,
+               sentH |-> gs.sentH, sentA |-> gs.sentA]
 Restore(gs, s) == [gs EXCEPT !.mls = s.mls, !.chain = s.chain, !.pend = s.pend, !.props = s.props,
-                             !.secrets = s.secrets, !.past = s.past, !.consumed = s.consumed, !.rec = s.rec]
+                             !.secrets = s.secrets, !.past = s.past, !.consumed = s.consumed, !.rec = s.rec,
+                             !.sentH = s.sentH, !.sentA = s.sentA]
+
+\* the ratchet generation an event occupies
+Gen(e) == [a |-> ev[e].author, ch |-> ev[e].parent, t |-> IF ev[e].kind = "app" THEN "app" ELSE "hs", n |-> ev[e].gen]
 
 NoProc == [state |-> "none", epoch |-> NoEpoch, g |-> ""]
 ProcOf(cs, e) == IF e \in DOMAIN cs.proc THEN cs.proc[e] ELSE NoProc
@@ -230,7 +237,8 @@ Merged(cs, g, k) ==
     [cs EXCEPT !.g[g].chain = Append(gs.chain, k),
                !.g[g].pend  = NoE,
                !.g[g].props = {},
-               !.g[g].past  = TakeLast(Append(gs.past, gs.chain), MaxPast)]
+               !.g[g].past  = TakeLast(Append(gs.past, gs.chain), MaxPast),
+               !.g[g].sentH = 0, !.g[g].sentA = 0]
 
 \* post-merge bookkeeping of process_commit / own-commit echo
 AfterMerge(cs0, g, e, oldRecEpoch, c, isSelfUpd) ==
@@ -269,8 +277,8 @@ ProcProposal(cs, c, e, g, recEpoch, nm) ==
                  \* committer's own removal); the proposal stays queued although the call is refused
                  FailUnprocessable([cs EXCEPT !.g[g].props = @ \cup {Pid(e)}], e, g, recEpoch)
             ELSE LET cs1 == [cs EXCEPT !.g[g].props = @ \cup {Pid(e)}]
-                     cs2 == [cs1 EXCEPT !.g[g].pend = nm.name,
-                                        !.out = Append(@, [name |-> nm.name, kind |-> "commit", g |-> g, author |-> c,
+                     cs2 == [cs1 EXCEPT !.g[g].pend = nm.name, !.g[g].sentH = @ + 1,
+                                        !.out = Append(@, [name |-> nm.name, kind |-> "commit", g |-> g, author |-> c, gen |-> cs.g[g].sentH,
                                                            parent |-> cs.g[g].chain, ts |-> nm.ts, rank |-> nm.rank,
                                                            tag |-> cs.g[g].rec.data.nid,
                                                            eff |-> Eff("propcommit", {}), refs |-> cs1.g[g].props,
@@ -369,10 +377,10 @@ Process(cs, c, e, nm, first) ==
     THEN IF E.kind = "commit" /\ gsS.pend # NoE
          THEN ProcOwnPending(csS, c, e, g, recEpoch)
          ELSE ProcOwnEcho(csS, c, e, g)
-    ELSE IF e \in gsS.consumed \/ E.author \notin GS(g, E.parent).members
+    ELSE IF Gen(e) \in gsS.consumed \/ E.author \notin GS(g, E.parent).members
     THEN FailUnprocessable(csS, e, g, recEpoch)                                 \* ratchet generation already used / unknown sender
     ELSE
-    LET csD == [csS EXCEPT !.g[g].consumed = @ \cup {e}] IN                    \* decrypting consumes the generation
+    LET csD == [csS EXCEPT !.g[g].consumed = @ \cup {Gen(e)}] IN                    \* decrypting consumes the generation
     IF E.kind = "app" THEN ProcApp(csD, c, e, g, recEpoch, nm)
     ELSE IF E.kind = "prop" THEN ProcProposal(csD, c, e, g, recEpoch, nm)
     ELSE IF ~(E.refs \subseteq gsS.props)
@@ -414,7 +422,7 @@ InitState == [ ginfo |-> [g \in Groups |-> NoGInfo],
                wl    |-> <<>>,
                welc  |-> [c \in Clients |-> <<>>],
                pwelc |-> [c \in Clients |-> <<>>],
-               hist  |-> [mergedNoSnap |-> {}, lastRes |-> "", notifs |-> <<>>, late |-> {}, tried |-> {}, q |-> FALSE, aheadOfRefs |-> {}, lostTs |-> {}, ptrStale |-> {}] ]
+               hist  |-> [mergedNoSnap |-> {}, lastRes |-> "", notifs |-> <<>>, late |-> {}, tried |-> {}, q |-> FALSE, aheadOfRefs |-> {}, lostTs |-> {}, ptrStale |-> {}, wreset |-> {}] ]
 
 Init ==
     /\ ginfo = InitState.ginfo
@@ -463,7 +471,7 @@ NewCommit(c, g, kind, arg, nm) ==
         P  == gs.props
         eff == Eff(kind, arg) IN
     [name |-> nm.name, kind |-> "commit", g |-> g, author |-> c, parent |-> gs.chain,
-     ts |-> nm.ts, rank |-> nm.rank, tag |-> gs.rec.data.nid, eff |-> eff, refs |-> P,
+     ts |-> nm.ts, rank |-> nm.rank, tag |-> gs.rec.data.nid, eff |-> eff, refs |-> P, gen |-> gs.sentH,
      result |-> ApplyEff(GS(g, gs.chain), eff, P)]
 
 CommitAllowed(c, g, kind, arg) ==
@@ -483,7 +491,7 @@ DoCommit(c, g, kind, arg, nm, wn) ==
     /\ LET E == NewCommit(c, g, kind, arg, nm)
            cs0 == CS(c)
            cs1 == [cs0 EXCEPT !.g[g] = PutSecret(@, EpochOf(g, @.chain), @.chain),   \* build_message_event exports
-                              !.g[g].pend = nm.name, !.out = <<E>>]
+                              !.g[g].pend = nm.name, !.out = <<E>>, !.g[g].sentH = @ + 1]
            cs2 == [cs1 EXCEPT !.proc = (nm.name :> [state |-> "processed_commit", epoch |-> EpochOf(g, cl[c][g].chain), g |-> g]) @@ @]
        IN /\ Install(c, cs2)
           /\ wl' = IF kind = "add"
@@ -524,11 +532,11 @@ SendMessage(c, g, nm, m) ==
     /\ LET gs == cl[c][g]
            cur == EpochOf(g, gs.chain)
            E == [name |-> nm.name, kind |-> "app", g |-> g, author |-> c, parent |-> gs.chain,
-                 ts |-> nm.ts, rank |-> nm.rank, tag |-> gs.rec.data.nid, msg |-> m]
+                 ts |-> nm.ts, rank |-> nm.rank, tag |-> gs.rec.data.nid, msg |-> m, gen |-> gs.sentA]
            rowm == [author |-> m.claimed, state |-> "created", epoch |-> cur, w |-> nm.name,
                     content |-> m.content, ca |-> m.ca, pa |-> nm.now, idr |-> m.idr]
            cs0 == CS(c)
-           cs1 == [cs0 EXCEPT !.g[g] = PutSecret(@, cur, gs.chain), !.out = <<E>>,
+           cs1 == [cs0 EXCEPT !.g[g] = PutSecret(@, cur, gs.chain), !.out = <<E>>, !.g[g].sentA = @ + 1,
                               !.msgs = (<<g, m.id>> :> rowm) @@ @]
            cs2 == SetProc(cs1, nm.name, "created", g, cur)
        IN  Install(c, UpdateLast(cs2, g, m.id, rowm))
@@ -545,9 +553,9 @@ Leave(c, g, nm) ==
     /\ LET gs == cl[c][g]
            cur == EpochOf(g, gs.chain)
            E == [name |-> nm.name, kind |-> "prop", g |-> g, author |-> c, parent |-> gs.chain,
-                 ts |-> nm.ts, rank |-> nm.rank, tag |-> gs.rec.data.nid, pkind |-> "leave", target |-> c]
+                 ts |-> nm.ts, rank |-> nm.rank, tag |-> gs.rec.data.nid, pkind |-> "leave", target |-> c, gen |-> gs.sentH]
            cs0 == CS(c)
-           cs1 == [cs0 EXCEPT !.g[g] = PutSecret(@, cur, gs.chain), !.out = <<E>>,
+           cs1 == [cs0 EXCEPT !.g[g] = PutSecret(@, cur, gs.chain), !.out = <<E>>, !.g[g].sentH = @ + 1,
                               !.g[g].props = @ \cup {[a |-> c, k |-> "leave", t |-> c]}]   \* MLS queues the own proposal too
        IN  Install(c, SetProc(cs1, nm.name, "processed_commit", g, cur))
     /\ UNCHANGED <<ginfo, withdrawn, wl, welc, pwelc, hist>>
@@ -556,30 +564,34 @@ Leave(c, g, nm) ==
 (* Welcomes (welcomes.rs)                                                   *)
 
 WelcOf(c, w) == IF w \in DOMAIN welc[c] THEN welc[c][w] ELSE "none"
-PWelcOf(c, w) == IF w \in DOMAIN pwelc[c] THEN pwelc[c][w] ELSE "none"
+PWelcOf(c, x) == IF x \in DOMAIN pwelc[c] THEN pwelc[c][x] ELSE "none"
 
 \* the welcome can be staged by c: it was encrypted to one of c's key packages
 CanStage(c, w) == wl[w].to = c
 
-\* process_welcome: result class "Ok" | "Err"
-ProcessWelcomeRes(c, w) ==
-    IF PWelcOf(c, w) = "failed" THEN "Err"
-    ELSE IF PWelcOf(c, w) = "processed" THEN (IF WelcOf(c, w) # "none" THEN "Ok" ELSE "Err")
+\* process_welcome(wrapper id x, rumor of welcome w): result class "Ok" | "Err".
+\* Dedup is by WRAPPER id; the stored welcome is keyed by the RUMOR id, so the same rumor under a fresh
+\* wrapper is processed in full again (key packages are last-resort and never deleted by joining).
+ProcessWelcomeRes(c, w, x) ==
+    IF PWelcOf(c, x) = "failed" THEN "Err"
+    ELSE IF PWelcOf(c, x) = "processed" THEN (IF WelcOf(c, w) # "none" THEN "Ok" ELSE "Err")
     ELSE IF CanStage(c, w) THEN "Ok" ELSE "Err"
 
-ProcessWelcome(c, w) ==
+ProcessWelcome(c, w, x) ==
     /\ w \in DOMAIN wl
     /\ LET g == wl[w].g IN
-       IF PWelcOf(c, w) # "none" THEN UNCHANGED <<cl, welc, pwelc>>
+       IF PWelcOf(c, x) # "none" THEN UNCHANGED <<cl, welc, pwelc>>
        ELSE IF ~CanStage(c, w)
-       THEN /\ pwelc' = [pwelc EXCEPT ![c] = (w :> "failed") @@ @]
+       THEN /\ pwelc' = [pwelc EXCEPT ![c] = (x :> "failed") @@ @]
             /\ UNCHANGED <<cl, welc>>
        ELSE \* saves a Pending group record (overwriting whatever record exists for that MLS group id)
             /\ cl' = [cl EXCEPT ![c][g].rec = [st |-> "pending", epoch |-> EpochOf(g, wl[w].chain),
                                                data |-> GS(g, wl[w].chain), last |-> NoE, lkey |-> NoKey, su |-> TRUE]]
-            /\ pwelc' = [pwelc EXCEPT ![c] = (w :> "processed") @@ @]
+            /\ pwelc' = [pwelc EXCEPT ![c] = (x :> "processed") @@ @]
             /\ welc' = [welc EXCEPT ![c] = (w :> "pending") @@ @]
-    /\ hist' = [hist EXCEPT !.lastRes = ProcessWelcomeRes(c, w)]
+    /\ hist' = [hist EXCEPT !.lastRes = ProcessWelcomeRes(c, w, x),
+                            !.wreset = IF PWelcOf(c, x) = "none" /\ CanStage(c, w) /\ cl[c][wl[w].g].mls # "none"
+                                       THEN @ \cup {<<c, wl[w].g>>} ELSE @]
     /\ UNCHANGED <<ginfo, ev, proc, msgs, snapq, hyd, withdrawn, wl>>
 
 \* accept_welcome on a stored welcome: joins at the inviter's post-commit state
@@ -587,18 +599,20 @@ AcceptWelcome(c, w) ==
     /\ w \in DOMAIN wl /\ WelcOf(c, w) # "none" /\ CanStage(c, w)
     /\ LET g == wl[w].g IN
        /\ cl' = [cl EXCEPT ![c][g] = [@ EXCEPT !.mls = "ok", !.chain = wl[w].chain, !.pend = NoE, !.props = {},
-                                              !.past = <<>>, !.consumed = {},
-                                              !.rec = IF @.rec.st = "none" THEN @.rec
-                                                      ELSE [@.rec EXCEPT !.st = "active", !.su = TRUE]]]
+                                              !.past = <<>>, !.consumed = {}, !.sentH = 0, !.sentA = 0,
+                                              !.rec = IF @.st = "none" THEN @
+                                                      ELSE [@ EXCEPT !.st = "active", !.su = TRUE]]]
        /\ welc' = [welc EXCEPT ![c][w] = "accepted"]
-    /\ UNCHANGED <<ginfo, ev, proc, msgs, snapq, hyd, withdrawn, wl, pwelc, hist>>
+       /\ hist' = [hist EXCEPT !.wreset = IF cl[c][g].mls # "none" THEN @ \cup {<<c, g>>} ELSE @]
+    /\ UNCHANGED <<ginfo, ev, proc, msgs, snapq, hyd, withdrawn, wl, pwelc>>
 
 DeclineWelcome(c, w) ==
     /\ w \in DOMAIN wl /\ WelcOf(c, w) # "none" /\ CanStage(c, w)
     /\ LET g == wl[w].g IN
        /\ cl' = [cl EXCEPT ![c][g].rec = IF @.st = "none" THEN @ ELSE [@ EXCEPT !.st = "inactive"]]
        /\ welc' = [welc EXCEPT ![c][w] = "declined"]
-    /\ UNCHANGED <<ginfo, ev, proc, msgs, snapq, hyd, withdrawn, wl, pwelc, hist>>
+       /\ hist' = [hist EXCEPT !.wreset = IF cl[c][g].mls # "none" THEN @ \cup {<<c, g>>} ELSE @]
+    /\ UNCHANGED <<ginfo, ev, proc, msgs, snapq, hyd, withdrawn, wl, pwelc>>
 
 \* at the moment of a first hand-over: is the event outside the configured windows?
 OutsideWindow(c, e) ==
@@ -809,10 +823,23 @@ C03_OnlyMembers == \A c \in Clients : \A k \in DOMAIN msgs[c] :
                       e \in DOMAIN ev => c \in GS(k[1], ev[e].parent).members
 
 \* --- C08: the stored record mirrors the MLS state (checked after every call) ---
+\* (finding WelcomeOverwritesActiveGroup: a welcome for a group the client already holds rewrites the record /
+\*  resets the MLS state; such a client is excused from then on)
 C08_Mirror == \A c \in Clients, g \in Groups :
                  (cl[c][g].mls = "ok" /\ cl[c][g].rec.st = "active") =>
-                    /\ cl[c][g].rec.epoch = EpochOf(g, cl[c][g].chain)
-                    /\ cl[c][g].rec.data = GS(g, cl[c][g].chain)
+                    \/ /\ cl[c][g].rec.epoch = EpochOf(g, cl[c][g].chain)
+                       /\ cl[c][g].rec.data = GS(g, cl[c][g].chain)
+                    \/ "WelcomeOverwritesActiveGroup" \in Dev /\ <<c, g>> \in hist.wreset
+
+\* --- C16: invitations ---
+\* an Active group record comes from creating the group or accepting a welcome for it
+C16_ConsentGated == \A c \in Clients, g \in Groups :
+    (Created(g) /\ cl[c][g].rec.st = "active") =>
+        \/ c \in ginfo[g].init.members
+        \/ \E w \in DOMAIN welc[c] : wl[w].g = g /\ welc[c][w] = "accepted"
+\* after accepting, the joiner is in the inviter's post-commit state with the rotation obligation (checked on the step)
+GroupObs(c, g) == [chain |-> cl[c][g].chain, mls |-> cl[c][g].mls, pend |-> cl[c][g].pend, props |-> cl[c][g].props,
+                   st |-> cl[c][g].rec.st, epoch |-> cl[c][g].rec.epoch, data |-> cl[c][g].rec.data]
 
 \* --- C18 (MDK level): the cached last-message pointer designates the first message of the default order
 \*     among the group's messages that are not invalidated, or nothing
@@ -828,6 +855,7 @@ C18_Ex(pr) == \A c \in Clients, g \in Groups :
        \/ cl[c][g].rec.last = ExpectedLast(c, g)
        \/ /\ "RollbackStalePointer" \in Dev /\ <<c, g>> \in hist.ptrStale
           /\ pr => PrintT(<<"KNOWN-FINDING", "C18", "RollbackStalePointer", c, g>>)
+       \/ "WelcomeOverwritesActiveGroup" \in Dev /\ <<c, g>> \in hist.wreset
        \/ (pr /\ PrintT("VIOLATION-DETAIL " \o ToString(<<"C18 pointer", c, g, cl[c][g].rec.last, "expected", ExpectedLast(c, g)>>)) /\ FALSE)
 C18_Pointer == C18_Ex(TRUE)
 
